@@ -515,7 +515,7 @@ namespace Pistache::Tcp
                 break;
 
             auto fd = write->peerFd;
-            if (!isPeerFd(fd))
+            if (!isPeerFd(fd) || (write->peerId != AnyPeer && getPeer(fd)->getID() != write->peerId))
             {
                 closeIfFile(write->buffer);
                 continue;
